@@ -10,6 +10,7 @@ from .pinmods import P
 from .c13 import nibs_eq
 
 PROPERTY = 'C14'
+PYTHON_O = ['tsp/all-lengths', 'pvv/mixin/8-symbolic-hex-digits', 'zmk/2-components']      # obligations that are also explored with the modules compiled as under python -O
 TECHNIQUE = 'the real PVV / key functions executed on strings of 4-bit-vector characters with an uninterpreted cipher (z3 QF_BV+UF); decimalisation explored over every digit/letter pattern of the ciphertext'
 ASSUMPTIONS = [
     'the 3DES encryption is an uninterpreted function: its 64-bit result is an arbitrary value, so the decimalisation is checked for every possible '
@@ -124,6 +125,43 @@ def pvv(nsym, tails, via, split=None):
     return h
 
 
+def two_cards():
+    """one pin block object without a card number of its own, asked for the PVV of two different cards one after the other"""
+    def h():
+        pb = P().pinblock
+        pin = hex_string('pin', 4, digits_only=True)
+        pans = [hex_string('pan%d' % i, 16, digits_only=True) for i in range(2)]
+        key = hex_string('key', 32)
+        keyb = key.__sunhexlify__()
+        cts = []
+        for pan in pans:
+            ct = HexInt.from_bv(cryptostub.reference_E('3DES', keyb, z3.Concat(*tsp_nibs(pin, pan, 1)))).nibs
+            for i in range(4):
+                assume(z3.ULE(ct[i], 9))        # bound: both ciphertexts start with four decimal digits (the PVV is those digits) ...
+            for i in range(4, 16):
+                assume(ct[i] == 15)             # ... followed by twelve times f (other patterns: the pvv/function obligations)
+            cts.append(ct)
+
+        def rp():
+            return {'kind': 'two_cards', 'args': {'pin': concretize_str(pin, ev), 'pans': [concretize_str(p, ev) for p in pans], 'key': concretize_str(key, ev)}}
+        core.set_fallback(rp, 'C14/concretised')
+        with guard('to_pvv', 'C14/pvv-exception/pin4', rp):
+            obj = pb.Iso4AESPinBlockWithVisaPVV(pin)
+            outs = [obj.to_pvv(key, card_number=pan) for pan in pans]
+        for k, (out, ct) in enumerate(zip(outs, cts)):
+            out = SymStr.of(out)
+            require(len(out.cells) == 4, 'PVV has %d digits' % len(out.cells), key='C14/pvv-length', replay=rp)
+            conds = []
+            for c, n0 in zip(out.cells, ct[:4]):
+                n = symstr._nib_of_char(c)
+                require(n is not None, 'PVV character is not a digit', key='C14/pvv-digit', replay=rp)
+                conds.append(n == n0)
+            require(mk_bool(z3.And(*conds)), 'call %d on the same object did not return the PVV of the card number it was given' % (k + 1),
+                    key='C14/pvv-second-card', replay=rp)
+        return {'sample': rp()['args'], 'replay': rp()}
+    return h
+
+
 def zmk(nparts):
     def h():
         k = P().key
@@ -202,4 +240,6 @@ def obligations(tier):
         for s in range(16):
             obs.append(Ob('pvv/function/16-symbolic/pattern-%x' % s, pvv(16, None, 'function', split=s), 3000,
                           'all 16 ciphertext hex digits arbitrary; worker handles digit/letter pattern %s of the first four' % format(s, '04b'), _funcs))
+    obs.append(Ob('pvv/mixin/two-cards-one-object', two_cards(), 300,
+                  'format-4 block object (no card number of its own): to_pvv for two symbolic 16-digit card numbers in a row; ciphertexts of the pattern dddd ffffffffffff', _funcs))
     return obs
